@@ -73,11 +73,12 @@ class ProjectionRegister:
 
     def unregister_projector(self, projector):
         self.__projectors.discard(projector)
+        # Carrier may have been unloaded or replaced since registration, in this
+        # case projector is tracked as carrierless
         carrier_item = projector.item._solsys_carrier
         if carrier_item is not None:
             self.__carrier_projectors.rm_data_entry(carrier_item, projector)
-        else:
-            self.__carrierless_projectors.discard(projector)
+        self.__carrierless_projectors.discard(projector)
 
     def apply_projector(self, projector, tgt_items):
         self.__projector_tgts.add_data_set(projector, tgt_items)
